@@ -643,4 +643,26 @@ theorem Pkt_decoded_bytes (p : Pkt) (h : Pkt_WF p) (hf : Pkt_used p ≤ 188) :
       have hpay : (Pkt_decoded p).payload = [] := by simp [Pkt_decoded, hc]
       rw [hpay, hpl h02]
 
+/-- `MPEGTS.pack` of well-formed packets: every block is packed (its adaptation field normalised),
+    the output is the concatenation of the packets -/
+theorem packBlocks_eq (ps : List Pkt) (h : ∀ p ∈ ps, Pkt_WF p) :
+    packBlocks ps = (ps.map Pkt_packed, .ok (ps.flatMap Pkt_bytes)) := by
+  induction ps with
+  | nil => rfl
+  | cons p ps ih =>
+    have hp := Pkt_pack_eq' p false (h p (by simp))
+    simp only [Bool.false_eq_true, if_false] at hp
+    simp only [packBlocks, hp, ih (fun q hq => h q (by simp [hq])), List.map_cons, List.flatMap_cons]
+
+/-- the decoded packets re-encode to the same stream when the format can express each of them -/
+theorem flatMap_decoded_bytes (ps : List Pkt) (h : ∀ p ∈ ps, Pkt_WF p ∧ Pkt_used p ≤ 188 ∧
+      ((p.adaption_ctrl = 0 ∨ p.adaption_ctrl = 2) → p.payload = [])) :
+    (ps.map Pkt_decoded).flatMap Pkt_bytes = ps.flatMap Pkt_bytes := by
+  induction ps with
+  | nil => rfl
+  | cons p ps ih =>
+    obtain ⟨hw, hf, hpl⟩ := h p (by simp)
+    simp only [List.map_cons, List.flatMap_cons, (Pkt_decoded_bytes p hw hf).2 hpl,
+      ih (fun q hq => h q (by simp [hq]))]
+
 end Acra.Lemmas.MPEGTS
